@@ -582,9 +582,8 @@ Native(m, name, args, env, x, lc, fuel) ==
          Con(G(IF v.t # "arr" THEN IFail
                ELSE IF \E i \in 1..Len(v.a) : HasIErr(v.a[i]) THEN Unk ELSE ArrV(SortV(v.a))))
     [] name = "reverse" ->
+         \* "takes an array and reverses it"; other inputs are not covered by the manual
          Con(G(CASE v.t = "arr" -> ArrV([i \in 1..Len(v.a) |-> v.a[Len(v.a) + 1 - i]])
-                 [] v.t = "null" -> ArrV(<<>>)
-                 [] v.t = "str" -> StrV([i \in 1..Len(v.c) |-> v.c[Len(v.c) + 1 - i]])
                  [] OTHER -> Unk))
     [] name = "tobytes" ->
          Con(G(CASE v.t = "str" -> BytesV(Utf8(v.c))
@@ -636,6 +635,8 @@ NativeColl(m, name, args, env, x, lc, fuel) ==
       sorted  == SortKV([i \in 1..Len(v.a) |-> << keyOf(i), v.a[i] >>])
       ByKey(F(_)) == IF v.t # "arr" THEN ErrS(IErr)
                      ELSE IF HasIErr(v) THEN End(UnkT)
+                     \* "evaluates f for each value": whether the key of a single value is computed at all is left open
+                     ELSE IF Len(v.a) <= 1 /\ badK # {} THEN End(UnkT)
                      ELSE IF badK # {} THEN End(keyS(CHOOSE i \in badK : \A h \in badK : i <= h).e)
                      ELSE IF \E i \in 1..Len(v.a) : HasIErr(keyOf(i)) THEN End(UnkT)
                      ELSE One(Pv0(F(sorted)))
